@@ -8,7 +8,6 @@
 //! commit id (the algorithms only use `Ord`/`Eq`/`Copy` on those ids).
 #![allow(dead_code)]
 use std::marker::PhantomData;
-pub use std::collections::VecDeque;
 
 pub const UNIVERSE: u8 = 4;
 
@@ -491,4 +490,84 @@ pub mod btree_map {
 }
 pub mod btree_set {
     pub use super::BTreeSet;
+}
+
+// ------------------------------------------------------------------------------------------
+// VecDeque: a 6-slot queue (one field per slot).  `pop_front` shifts every slot down by one with
+// concrete field moves, `push_back` selects the slot by a `match` on the length - no heap, no
+// symbolic indexing (std's VecDeque with a symbolic number of elements does not finish, DESIGN §8).
+
+#[derive(Clone, Debug)]
+pub struct VecDeque<T> {
+    q0: Option<T>,
+    q1: Option<T>,
+    q2: Option<T>,
+    q3: Option<T>,
+    q4: Option<T>,
+    q5: Option<T>,
+    n: usize,
+}
+
+impl<T> Default for VecDeque<T> {
+    fn default() -> Self {
+        Self::new()
+    }
+}
+
+impl<T> VecDeque<T> {
+    pub fn new() -> Self {
+        Self { q0: None, q1: None, q2: None, q3: None, q4: None, q5: None, n: 0 }
+    }
+    pub fn len(&self) -> usize {
+        self.n
+    }
+    pub fn is_empty(&self) -> bool {
+        self.n == 0
+    }
+    pub fn push_back(&mut self, t: T) {
+        match self.n {
+            0 => self.q0 = Some(t),
+            1 => self.q1 = Some(t),
+            2 => self.q2 = Some(t),
+            3 => self.q3 = Some(t),
+            4 => self.q4 = Some(t),
+            5 => self.q5 = Some(t),
+            _ => panic!("vcoll: VecDeque capacity exceeded (harness larger than the shadow containers)"),
+        }
+        self.n += 1;
+    }
+    pub fn pop_front(&mut self) -> Option<T> {
+        if self.n == 0 {
+            return None;
+        }
+        let out = self.q0.take();
+        self.q0 = self.q1.take();
+        self.q1 = self.q2.take();
+        self.q2 = self.q3.take();
+        self.q3 = self.q4.take();
+        self.q4 = self.q5.take();
+        self.n -= 1;
+        out
+    }
+    pub fn front(&self) -> Option<&T> {
+        self.q0.as_ref()
+    }
+}
+
+impl<T> FromIterator<T> for VecDeque<T> {
+    fn from_iter<I: IntoIterator<Item = T>>(it: I) -> Self {
+        let mut q = Self::new();
+        for t in it {
+            q.push_back(t);
+        }
+        q
+    }
+}
+
+impl<T> Extend<T> for VecDeque<T> {
+    fn extend<I: IntoIterator<Item = T>>(&mut self, it: I) {
+        for t in it {
+            self.push_back(t);
+        }
+    }
 }
